@@ -34,8 +34,10 @@
             (k = 1: the parser holds input back although nobody is paused)
      budget the step budget was exhausted
      end    always last
-   obs = {size, low, high, consumed, steps}: size = total_bytes - consumed (public counters),
-         -1 while unknown; low/high = get_read_buffer_limits().
+   obs = {size, low, high, consumed, steps, st}: size = total_bytes - consumed (public counters),
+         -1 while unknown; low/high = get_read_buffer_limits(); st = 1: outside a parser call the
+         payload parser still remembers a pause request although it holds nothing back (private
+         peek; used only to NAME a failure, never to produce one).
 
    Clauses (all property clauses, all evaluated here):
      Resident, OneCallBudget, WrongLength / WrongBytes (transparency), CorruptCleanEof,
@@ -43,14 +45,16 @@
      TruncatedFramingCleanEof, Stuck, Livelock, TooManySteps (progress), MaxSizeReturnedMore,
      MaxSizeAccumulated, Spurious413,
    and two separately named deviations of the code as found:
-     StuckStalePause            hang caused by the stale HttpPayloadParser._paused flag
+     StalePauseStuck / StalePauseLost
+                                hang / spurious error with lost data after the stale
+                                HttpPayloadParser._paused flag was observed (st = 1)
      TruncatedStreamCleanEof    a coded stream that stops before its end marker (gzip / br / zstd)
                                 with intact HTTP framing ends in a clean EOF                    *)
 EXTENDS Naturals, Integers, Sequences, TLC, TraceBatch
 
-VARIABLES tid, l, outcome, errSeen, tot, dg, bad
+VARIABLES tid, l, outcome, errSeen, tot, dg, stale, bad
 
-tvars == <<tid, l, outcome, errSeen, tot, dg, bad>>
+tvars == <<tid, l, outcome, errSeen, tot, dg, stale, bad>>
 
 CAP == 1000000000
 Max(a, b) == IF a > b THEN a ELSE b
@@ -113,7 +117,7 @@ EvBad(e) ==
                 ELSE IF e.s = "payload"
                 THEN IF ~ErrExpected THEN "SpuriousError" ELSE ""
                 ELSE IF ErrExpected THEN "WrongErrorKind" ELSE "SpuriousError"
-           [] e.ev = "stuck" -> IF e.k = 1 THEN "StuckStalePause" ELSE "Stuck"
+           [] e.ev = "stuck" -> IF e.k = 1 \/ stale \/ o.st = 1 THEN "StalePauseStuck" ELSE "Stuck"
            [] e.ev = "budget" -> "Livelock"
            [] e.ev = "end" ->
                 IF outcome = "" THEN "Stuck"
@@ -125,7 +129,7 @@ EvBad(e) ==
 TInit ==
     /\ tid \in 1..NTraces
     /\ l = 0
-    /\ outcome = "" /\ errSeen = FALSE /\ tot = 0 /\ dg = 0
+    /\ outcome = "" /\ errSeen = FALSE /\ tot = 0 /\ dg = 0 /\ stale = FALSE
     /\ bad = ""
     /\ Verdict(tid, 0, IF NEvents(tid) = 0 THEN "NoEndEvent" ELSE "", <<>>)
 
@@ -133,7 +137,10 @@ TNext ==
     /\ bad = ""
     /\ l < NEvents(tid)
     /\ LET e == Events(tid)[l + 1]
-           b0 == EvBad(e)
+           b00 == EvBad(e)
+           \* a spurious error / missing end after the stale pause flag was seen is named after it
+           b0 == IF stale /\ b00 \in {"SpuriousError", "Stuck", "WrongErrorKind"}
+                 THEN (IF b00 = "Stuck" THEN "StalePauseStuck" ELSE "StalePauseLost") ELSE b00
            b == IF b0 = "" /\ l + 1 = NEvents(tid) /\ e.ev # "end" THEN "NoEndEvent" ELSE b0
            l2 == IF b = "" THEN l + 1 ELSE l
        IN /\ bad' = b
@@ -141,6 +148,7 @@ TNext ==
           /\ tot' = IF e.ev = "read" THEN tot + e.m ELSE tot
           /\ dg' = IF e.ev = "read" /\ e.m > 0 THEN e.k ELSE dg
           /\ errSeen' = (errSeen \/ e.ev = "err")
+          /\ stale' = (stale \/ e.obs.st = 1)
           /\ outcome' = IF e.ev \in {"eof", "err", "srv"} /\ outcome = "" THEN e.ev ELSE outcome
           /\ UNCHANGED tid
           /\ Verdict(tid, l2, b, <<>>)
